@@ -144,6 +144,10 @@ pub fn modules() -> Vec<Module> {
 }
 /// "module::FONT_NAME" -> (font, the module's mapping)
 pub fn find_font(name: &str) -> Option<(&'static MonoFont<'static>, &'static StrGlyphMapping<'static>)> {
+    // the crate-private NULL_FONT (default font of MonoTextStyleBuilder; zero-sized, ASCII mapping) is a built-in font too
+    if name == "null::NULL_FONT" {
+        return Some((MonoTextStyleBuilder::<'static, Gray8>::new().build().font, mapping_for("ascii").0));
+    }
     let (m, f) = name.split_once("::")?;
     let module = modules().into_iter().find(|x| x.name == m)?;
     let font = module.fonts.iter().find(|x| x.0 == f)?.1;
